@@ -277,6 +277,7 @@ void begin_op(int op_index)
 {
     RtGuard g;
     TaskState* t = tls_task;
+    if (t->cur_op >= 0 && t->cur_op != op_index) t->ops[t->cur_op].live_after = int64_t(t->live.size());
     t->cur_op = op_index;
     OpRec& o = t->ops[op_index];
     o.ev_begin = uint32_t(g_events.size());
@@ -566,7 +567,6 @@ void node_del(const void* addr, uint32_t vid, bool holds_value)
     }
     ++o->n_del;
     log_event(K_DEL, vid, holds_value);
-    o->live_after = int64_t(t->live.size());
 }
 
 void node_use(uint32_t vid, bool moved_from)
@@ -586,6 +586,9 @@ void node_use(uint32_t vid, bool moved_from)
 }
 
 void set_alloc_tracking(bool) {}
+void functor_enter() { OpRec* o = cur(); if (o) ++o->functor_depth; }
+void functor_leave() { OpRec* o = cur(); if (o && o->functor_depth > 0) --o->functor_depth; }
+int64_t task_live(int task) { return int64_t(g_tasks[task].live.size()); }
 
 // called by the replaced global operator new (below)
 static bool alloc_hook(size_t n)
@@ -600,6 +603,7 @@ static bool alloc_hook(size_t n)
     if (idx == o.alloc_fail_at)
     {
         o.alloc_fault_fired = true;
+        if (o.functor_depth > 0) o.alloc_fault_in_functor = true;
         log_event(K_ALLOCFAIL, idx, int64_t(n));
         return false;
     }
@@ -618,7 +622,9 @@ namespace ctpg_verif
 }
 
 // ---------------------------------------------------------------------------------------------
-// allocator seam: replaced global operator new/delete
+// allocator seam: replaced global operator new/delete (not in the tsan flavour: its runtime owns them,
+// and allocation faults are exercised by the plain and asan flavours)
+#ifndef SIM_NO_ALLOC_SEAM
 void* operator new(std::size_t n)
 {
     if (!simrt::alloc_hook(n)) throw std::bad_alloc();
@@ -637,3 +643,4 @@ void operator delete(void* p) noexcept { std::free(p); }
 void operator delete[](void* p) noexcept { std::free(p); }
 void operator delete(void* p, std::size_t) noexcept { std::free(p); }
 void operator delete[](void* p, std::size_t) noexcept { std::free(p); }
+#endif
